@@ -90,7 +90,9 @@ SPEC = [
      'consts': ['METADATA_QUERY_INDICATOR_CHAR']},
     {'module': 'coder', 'file': 'pybufrkit/coder.py',
      'consts': ['BITMAP_NA', 'BITMAP_INDICATOR', 'BITMAP_WAITING_FOR_BIT', 'BITMAP_BIT_COUNTING',
-                'QA_INFO_NA', 'QA_INFO_WAITING', 'QA_INFO_PROCESSING']},
+                'QA_INFO_NA', 'QA_INFO_WAITING', 'QA_INFO_PROCESSING'],
+     # (w5-codersrc) CoderState / Coder methods: specification in harness/py2lean_state.py STATE_SPECS['coder']
+     'state': 'coder'},
     {'module': 'utils', 'file': 'pybufrkit/utils.py',
      'consts': ['TEXT_SECTION_HEADER', 'TEXT_SUBSET_HEADER'],
      'funcs': {'fixed_width_repr_of_int': {'params': {'value': 'int', 'width': 'int', 'pad_left': 'bool'}},
@@ -152,6 +154,8 @@ Type Prop Sort'''.split())
 
 
 def lean_ident(name):
+    if name == '_':
+        return 'underscore_'      # (w5-codersrc) the throw-away target of `a, _ = ...`
     return name + '_' if name in LEAN_KEYWORDS else name
 
 
@@ -211,9 +215,17 @@ def parse_type(s):
     return (m.group(1),) + tuple(parse_type(p) for p in parts)
 
 
+# (w5-codersrc) kinds added by extensions (harness/py2lean_state.py): kind prefix -> renderer returning (text, atomic)
+TYPE_EXT = {}
+DEFAULT_EXT = {}
+
+
 def lean_type(t, top=True):
     t = prune(t)
     k = t[0]
+    if k.split(':')[0] in TYPE_EXT:
+        r, atomic = TYPE_EXT[k.split(':')[0]](t)
+        return r if (top or atomic) else '(' + r + ')'
     if k == 'int':
         return 'Int'
     if k == 'nat':
@@ -252,6 +264,8 @@ def lean_type(t, top=True):
 def default_value(t):
     t = prune(t)
     k = t[0]
+    if k.split(':')[0] in DEFAULT_EXT and DEFAULT_EXT[k.split(':')[0]](t) is not None:
+        return DEFAULT_EXT[k.split(':')[0]](t)
     if k in ('int', 'nat'):
         return '0'
     if k == 'bool':
@@ -650,6 +664,9 @@ class ExprCompiler(object):
                 return self.lift([b, a], lambda c: '(%sPy.dictContains %s %s)' % (neg, c[0], c[1]), BOOL)
             if kb == 'tuple' and isinstance(e.comparators[0], ast.Tuple):
                 alts = [self.expr(x) for x in e.comparators[0].elts]
+                if {prune(x.ty) for x in alts + [a]} == {INT, NAT}:
+                    # (w5-codersrc) an int compared with literals: everything in Int
+                    a, alts = self.to_int(a), [self.to_int(x) for x in alts]
                 for x in alts:
                     self.unify(a.ty, x.ty, e)
                 return self.lift([a] + alts, lambda c: '(%s(%s))' % (neg, ' || '.join(
@@ -2294,6 +2311,10 @@ class ModuleGen(object):
             text, item = py2lean_small.render_fragment(self, fname, fs)
             func_texts.append(text)
             self.items.append(item)
+        if spec.get('state'):
+            # (w5-codersrc) procedures on objects with mutable attributes: harness/py2lean_state.py
+            from harness import py2lean_state
+            func_texts.extend(py2lean_state.render_state(self, py2lean_state.STATE_SPECS[spec['state']]))
         head = ['/- GENERATED by harness/py2lean.py from %s — do not edit; rewritten on every check.' % spec['file'],
                 '   git blob of the source file: %s' % self.mod.blob,
                 '   Python constructs and their Lean renderings: notes/Tie.md. -/',
